@@ -51,9 +51,7 @@ Definition check_parse (p : parse_case) : list N :=
   match parse_pkcs8 (fun _ _ => pc_pub p) (pc_order p) (pc_bytes p), pc_result p with
   | Some a, Some b => if privkey_eqb a b then [] else [3]
   | None, None => []
-  | Some _, None => if pc_hostile p then [] else [4]
-    (* the model accepts, gopki rejects: a violation for an encoding known to be valid; on damaged input gopki (Go's asn1) may
-       well be stricter than the model, and rejecting is what the property asks for *)
+  | Some _, None => [4]    (* the model accepts, gopki rejects *)
   | None, Some _ => [5]     (* gopki accepts what the model (and the property) rejects *)
   end.
 
